@@ -73,7 +73,14 @@ func (d Matches) Less(i, j int) bool {
 	if di.Name != dj.Name {
 		return di.Name < dj.Name
 	}
-	return di.Variant < dj.Variant
+	if di.Variant != dj.Variant {
+		return di.Variant < dj.Variant
+	}
+	// Copyright pseudo-matches carry no token span; they differ only by line.
+	if di.StartLine != dj.StartLine {
+		return di.StartLine < dj.StartLine
+	}
+	return di.EndLine < dj.EndLine
 }
 
 // Match reports instances of the supplied content in the corpus.
